@@ -274,6 +274,13 @@ func (w *world) opLose(t *inst, op Op) {
 	}
 	w.stats.Inc("fault.any")
 	w.stats.Add("mut", 2)
+	if op.P == "norepair" {
+		// C16: the run continues on the lossy store, with a fresh trie object (an
+		// empty cache: a warm cache would still serve the removed nodes)
+		t.tc = w.newCache()
+		t.mpt = util.NewMerklePatriciaTrie(t.db, util.Sequence(t.ver), root, t.tc)
+		return
+	}
 	if len(lostIdx) > 1 {
 		w.stats.Inc("probe.multi-node-loss")
 	}
